@@ -89,6 +89,12 @@ func init() {
 			return
 		}
 		st := curStub.Load()
+		digest := st.digest
+		if st.digests != nil {
+			if c := kernel.CurrentCall(); c >= 0 && c < len(st.digests) {
+				digest = st.digests[c]
+			}
+		}
 		rec := inputRec{base: nonce}
 		for i := 0; i < len(buf); i++ {
 			if len(buf[i]) < ref.HashLen {
@@ -102,10 +108,10 @@ func init() {
 			// the rest of the input: the b1t6 digest of the data and three zero trits. A lane that hashes anything else
 			// hashes another message than the one Score will judge; its hash is unrelated to the true one, and the
 			// oracle makes that visible by letting exactly such a lane qualify (the all-zero hash).
-			if st != nil && st.digest != nil {
+			if st != nil && digest != nil {
 				bad := buf[i][240] != 0 || buf[i][241] != 0 || buf[i][242] != 0
 				for t := 0; t < 192 && !bad; t++ {
-					bad = buf[i][t] != st.digest[t]
+					bad = buf[i][t] != digest[t]
 				}
 				if bad {
 					rec.lanes[i] = wrongInputNonce
@@ -1071,6 +1077,12 @@ func (w *world) finish() {
 	}
 	if cfg.Crowd > 1 {
 		w.res.Tags["special"] = "crowd"
+	}
+	if cfg.BigData > 0 {
+		w.probes["payload_of_64KiB_to_5MiB"] = 1
+		if cfg.Fault.Kind == "pre" {
+			w.probes["big_payload_cancelled_before_the_call"] = 1
+		}
 	}
 	// non-trivial: at least two different actors interleaved and a find or a fault occurred
 	w.res.Nontriv = w.res.Switches >= 2 && (len(w.found) > 0 || w.cancelDelivered)
